@@ -691,6 +691,11 @@ def share_batteries(roots, rng, p=0.5):
                 pool = pool[:max(1, len(pool) // 2)]
             for n in inv:
                 n["bats"] = sorted(rng.sample(pool, rng.randint(1, min(len(pool), 3))))
+    # occasionally a battery is shared ACROSS parents (an inverter behind a meter and one elsewhere)
+    inv = [n for n in walk(roots) if n["k"] == "B" and n["bats"]]
+    if len(inv) >= 2 and rng.random() < p * 0.3:
+        a, b = rng.sample(inv, 2)
+        b["bats"] = sorted(set(b["bats"]) | {rng.choice(a["bats"])})
     return roots
 
 
@@ -711,6 +716,14 @@ def sharing_labels(roots):
                 out.append("batteries_cross_connected(N:M)")
             if any(set(n["bats"]) <= shared and len(n["bats"]) == 1 for n in inv):
                 out.append("inverter_with_only_a_shared_battery")
+    where = {}
+    for kids in [roots] + [n["kids"] for n in walk(roots) if n["k"] == "M"]:
+        for n in kids:
+            if n["k"] == "B":
+                for b in n["bats"]:
+                    where.setdefault(b, set()).add(id(kids))
+    if any(len(v) > 1 for v in where.values()):
+        out.append("battery_shared_across_parents")
     if any(n["k"] == "B" and len(n["bats"]) > 1 for n in walk(roots)):
         out.append("inverter_with_several_batteries(1:N)")
     return sorted(set(out))
@@ -754,6 +767,8 @@ class TreeStream(Stream):
             [M(3, X())], [M(3, X()), E(7, 1)],
             [M(2, [M(3, [B(4, [8], 1), B(5, [8], 2), B(6, [8], 3)])], 9)],
             [M(2, [M(3, [B(4, [8, 9, 10], 1), B(5, [9, 11], 2), B(6, [11, 8], 3)])], 9)],
+            [M(2, [M(3, [B(4, [8, 10], 700), B(5, [10], 400)]), B(6, [10, 11], 30)], 9)],   # shared across parents
+            [M(3, [B(4, [8], 7)]), B(5, [8], 4)],
         ]
         for t in shared:
             for fb in (True, False):
